@@ -5,6 +5,7 @@ import (
 	"encoding/hex"
 	"fmt"
 	"math/big"
+	"reflect"
 	"strings"
 	"time"
 
@@ -23,6 +24,9 @@ type CWorld struct {
 	Tables []model.Shared `json:"tables"`
 	// Views are Adjust()ed views of shared tables, themselves shared among tasks.
 	Views []CView `json:"views,omitempty"`
+	// CatTables lists the tables (indices into Tables) the shared catalog holds; nil = all of them. A subset makes
+	// readers fall back from FindExact to FindLatest and to placeholder tables (version skew).
+	CatTables []int `json:"cat_tables,omitempty"`
 }
 
 type CView struct {
@@ -44,7 +48,15 @@ func BuildIonWorld(w CWorld) *IonWorld {
 	for _, v := range w.Views {
 		iw.Views = append(iw.Views, iw.SSTs[v.Table%len(iw.SSTs)].Adjust(v.MaxID))
 	}
-	iw.Cat = ion.NewCatalog(iw.SSTs...)
+	if w.CatTables == nil {
+		iw.Cat = ion.NewCatalog(iw.SSTs...)
+	} else {
+		var in []ion.SharedSymbolTable
+		for _, i := range w.CatTables {
+			in = append(in, iw.SSTs[i%len(iw.SSTs)])
+		}
+		iw.Cat = ion.NewCatalog(in...)
+	}
 	return iw
 }
 
@@ -256,6 +268,9 @@ const CTypeCount = 6
 
 // GoValue builds a seeded value of the shared type number typ.
 func GoValue(typ int, r *prng.Rand) interface{} {
+	if typ >= DynBase {
+		return dynValue(typ, r)
+	}
 	switch typ % CTypeCount {
 	case 0:
 		return cPoint(r)
@@ -292,8 +307,127 @@ func GoValue(typ int, r *prng.Rand) interface{} {
 	}
 }
 
+// Dynamic struct types: typ >= DynBase names the type built by reflect.StructOf from the field menu below,
+// selected by the bits of typ-DynBase. Identical selections are the identical reflect.Type, so tasks that use the
+// same number share the type, and every run index can bring types no earlier index has touched.
+const DynBase = 1000
+
+// DynField describes one field of a dynamic type.
+type DynField struct {
+	Go   string // Go field name
+	Tag  string // ion field name
+	Kind string // int | string | strings | point | ppoint | map | bool | float | bytes | any | symbol
+}
+
+var dynMenu = []DynField{
+	{"Fa", "a1", "int"}, {"Fb", "name", "string"}, {"Fc", "tags", "strings"}, {"Fd", "pt", "point"}, {"Fe", "dup", "ppoint"},
+	{"Ff", "attrs", "map"}, {"Fg", "flag", "bool"}, {"Fh", "ratio", "float"}, {"Fi", "raw", "bytes"}, {"Fj", "any", "any"},
+	{"Fk", "sym", "symbol"}, {"Fl", "x", "int"}, {"Fm", "c12", "string"}, {"Fn", "zed", "int"},
+}
+
+// DynFields returns the fields of dynamic type number typ (at least one).
+func DynFields(typ int) []DynField {
+	sel := uint(typ - DynBase)
+	var out []DynField
+	for i, f := range dynMenu {
+		if sel>>uint(i)&1 == 1 {
+			out = append(out, f)
+		}
+	}
+	if len(out) == 0 {
+		out = append(out, dynMenu[0])
+	}
+	return out
+}
+
+func dynGoType(kind string) reflect.Type {
+	switch kind {
+	case "int":
+		return reflect.TypeOf(int(0))
+	case "string", "symbol":
+		return reflect.TypeOf("")
+	case "strings":
+		return reflect.TypeOf([]string(nil))
+	case "point":
+		return reflect.TypeOf(CPoint{})
+	case "ppoint":
+		return reflect.TypeOf((*CPoint)(nil))
+	case "map":
+		return reflect.TypeOf(map[string]int(nil))
+	case "bool":
+		return reflect.TypeOf(false)
+	case "float":
+		return reflect.TypeOf(float64(0))
+	case "bytes":
+		return reflect.TypeOf([]byte(nil))
+	default:
+		return reflect.TypeOf((*interface{})(nil)).Elem()
+	}
+}
+
+// DynType builds (or finds: reflect caches identical struct types) the dynamic type number typ.
+func DynType(typ int) reflect.Type {
+	var fs []reflect.StructField
+	for _, f := range DynFields(typ) {
+		tag := `ion:"` + f.Tag + `"`
+		if f.Kind == "symbol" {
+			tag = `ion:"` + f.Tag + `,symbol"`
+		}
+		fs = append(fs, reflect.StructField{Name: f.Go, Type: dynGoType(f.Kind), Tag: reflect.StructTag(tag)})
+	}
+	return reflect.StructOf(fs)
+}
+
+func dynValue(typ int, r *prng.Rand) interface{} {
+	t := DynType(typ)
+	v := reflect.New(t).Elem()
+	for i, f := range DynFields(typ) {
+		fv := v.Field(i)
+		switch f.Kind {
+		case "int":
+			fv.SetInt(int64(r.Intn(5000)) - 2500)
+		case "string", "symbol":
+			fv.SetString(cWord(r))
+		case "strings":
+			var ss []string
+			for k := r.Intn(3); k > 0; k-- {
+				ss = append(ss, cWord(r))
+			}
+			fv.Set(reflect.ValueOf(ss))
+		case "point":
+			fv.Set(reflect.ValueOf(cPoint(r)))
+		case "ppoint":
+			if r.Bool() {
+				p := cPoint(r)
+				fv.Set(reflect.ValueOf(&p))
+			}
+		case "map":
+			if r.Bool() {
+				fv.Set(reflect.ValueOf(map[string]int{cWord(r): r.Intn(9)}))
+			}
+		case "bool":
+			fv.SetBool(r.Bool())
+		case "float":
+			fv.SetFloat(float64(r.Intn(64)) / 4)
+		case "bytes":
+			fv.SetBytes([]byte(cWord(r)))
+		default:
+			fv.Set(reflect.ValueOf(int64(r.Intn(9))))
+		}
+	}
+	if r.Bool() {
+		return v.Interface()
+	}
+	p := reflect.New(t)
+	p.Elem().Set(v)
+	return p.Interface()
+}
+
 // GoTarget returns a fresh Unmarshal target of the shared type number typ.
 func GoTarget(typ int) interface{} {
+	if typ >= DynBase {
+		return reflect.New(DynType(typ)).Interface()
+	}
 	switch typ % CTypeCount {
 	case 0:
 		return new(CPoint)
@@ -357,6 +491,14 @@ func (c *yieldCatalog) FindLatest(name string) ion.SharedSymbolTable {
 		c.yield("cat.FindLatest")
 	}
 	return c.inner.FindLatest(name)
+}
+
+// nthType varies the static types across the values of one task and keeps a dynamic type as it is.
+func nthType(typ, i int) int {
+	if typ >= DynBase {
+		return typ
+	}
+	return typ + i
 }
 
 func errStr(err error) string {
@@ -468,7 +610,7 @@ func RunCTask(w *IonWorld, t CTask, yield func(string)) (out string) {
 			n = 1
 		}
 		for i := 0; i < n; i++ {
-			if err := e.Encode(GoValue(t.Type+i, r)); err != nil {
+			if err := e.Encode(GoValue(nthType(t.Type, i), r)); err != nil {
 				fmt.Fprintf(&sb, "encode %d: %s\n", i, err.Error())
 			}
 		}
@@ -481,7 +623,7 @@ func RunCTask(w *IonWorld, t CTask, yield func(string)) (out string) {
 			n = 1
 		}
 		for i := 0; i < n; i++ {
-			v := GoValue(t.Type+i, r)
+			v := GoValue(nthType(t.Type, i), r)
 			var b []byte
 			var err error
 			switch t.Writer {
